@@ -58,6 +58,65 @@ def tail_position(r, F):
                           "the tail always lands in the first page/slot range and later deletes overwrite live tombstones" % k, ln=s.ln)
 
 
+def slot_of_offset(r, F):
+    """the recovered tail slot is (position of the newest tombstone) / SERIALIZED_LEN on every branch"""
+    from sa import affine
+    from rules.C01 import _strip_add
+    fn = _coroutine(F, T + "::TombstoneLog::open")
+    aggs = [s for b in fn.blocks if not b.cleanup for s in b.stmts if s.k == "assign" and s.rv.k == "agg" and s.rv.j.get("adt") == T + "::TombstoneLogInner"]
+    if not aggs:
+        raise AnchorMissing("TombstoneLog::open: construction of TombstoneLogInner not found")
+    slot_op = dict(aggs[0].rv.agg_fields())["slot"]
+    # slot = latest_slot + 1
+    sl = backslice(fn, slot_op, "prov")
+    cands = [l for l in sl.locals if fn.local_name(l)]
+    base, plus = None, 0
+    for l in cands:
+        ds = [d for d in fn.defs().get(l, []) if d[2] == "assign" and not fn.blocks[d[0]].cleanup]
+        if len(ds) == 1:
+            b2, c2 = _strip_add(fn, mir.Operand({"c": {"l": l, "p": []}}))
+            if c2:
+                base, plus = b2, c2
+    if base is None or plus != 1:
+        raise AnchorMissing("TombstoneLog::open: `slot = <latest slot> + 1` not recognised")
+    lsl = backslice(fn, base, "prov")
+    latest = [l for l in lsl.locals if fn.local_name(l) and len([d for d in fn.defs().get(l, []) if d[2] == "assign" and not fn.blocks[d[0]].cleanup]) >= 1 and l != base.place.local or l == base.place.local]
+    L = base.place.local
+    # follow copies to the variable with the branch definitions
+    for l in lsl.locals:
+        if fn.local_name(l) and len([d for d in fn.defs().get(l, []) if d[2] == "assign" and not fn.blocks[d[0]].cleanup]) > 1:
+            L = l
+    defs = [d for d in fn.defs().get(L, []) if d[2] == "assign" and not fn.blocks[d[0]].cleanup]
+    if not defs:
+        raise AnchorMissing("TombstoneLog::open: definitions of the latest-slot variable not found")
+    n = 0
+    for (b, i, k, s) in defs:
+        n += 1
+        rv = s.rv
+        if rv.k == "bin":
+            form = affine.affine(fn, mir.Operand({"c": {"l": s.place.local, "p": []}})) if False else None
+        # evaluate the right-hand side as an affine form
+        tmp = {"k": "use"}
+        if rv.k in ("use", "cast"):
+            form = affine.affine(fn, rv.ops[0])
+        elif rv.k == "bin":
+            a = affine.affine(fn, rv.ops[0], depth=1)
+            bb = affine.affine(fn, rv.ops[1], depth=1)
+            from fractions import Fraction
+            if rv.op == "Div" and affine._const(bb):
+                form = {kk: v / bb["1"] for kk, v in a.items()}
+            else:
+                form = None
+        else:
+            form = None
+        ok = form is not None and len(form) == 1 and "1" not in form and list(form.values())[0] == __import__("fractions").Fraction(1, 16)
+        pretty = None if form is None else " + ".join("%s*%s" % (v, kk) for kk, v in sorted(form.items()))
+        r.require(ok, fn, "latest slot == offset/16 (branch at line %s)" % "?" if False else "latest slot == offset / SERIALIZED_LEN [def %d]" % n,
+                  "affine normal form of this branch: %s" % pretty,
+                  "on this branch the recovered slot of the newest tombstone is `%s`, not `offset / 16`: the append position resumes in the wrong place after a "
+                  "restart and later deletes overwrite live tombstones (assuming PAGE %% 16 == 0 and offsets are multiples of 16)" % pretty, ln=s.ln)
+
+
 def codec(r, F):
     w = F.method(T + "::Tombstone", "write")
     rd = F.method(T + "::Tombstone", "read")
@@ -129,5 +188,6 @@ def append(r, F):
 
 def run(chk, F):
     chk.run_rule("C10.tail-depends-on-position", "the recovered log tail depends on partition, page offset and in-page slot of the newest tombstone", 3, tail_position, F)
+    chk.run_rule("C10.slot-of-offset", "every branch computing the newest tombstone's slot is affine-equal to offset / SERIALIZED_LEN", 2, slot_of_offset, F)
     chk.run_rule("C10.codec", "Tombstone::write and ::read agree on field order and width", 2, codec, F)
     chk.run_rule("C10.append", "append writes at the tail slot, advances it, flushes on page change and before returning, propagating errors", 6, append, F)
